@@ -296,7 +296,7 @@ def r14_inline_map(body, log, kind):
     while True:
         skip = _skip_map(body)
         mo = None
-        for m in re.finditer(r'\.map\(\|\s*(\w+|\([\w\s,]*\))\s*\|', body):
+        for m in re.finditer(r'\.map(?:_err)?\(\|\s*(\w+|\([\w\s,]*\))\s*\|', body):
             if not skip[m.start()]:
                 mo = m
                 break
@@ -306,8 +306,11 @@ def r14_inline_map(body, log, kind):
         p_close = match_brace(body, p_open, skip)
         expr = body[mo.end():p_close].strip()
         var = mo.group(1)
-        # receiver: walk backwards over a postfix chain
+        is_err = body[mo.start():mo.start() + 8] == '.map_err'
+        # receiver: walk backwards over a postfix chain (a method chain may be broken over lines)
         i = mo.start()
+        while i > 0 and body[i - 1].isspace():
+            i -= 1
         while i > 0:
             ch = body[i - 1]
             if ch in ')]':
@@ -335,7 +338,9 @@ def r14_inline_map(body, log, kind):
         recv = body[i:mo.start()]
         if not recv.strip():
             raise ExtractError('R14: no receiver for .map at offset %d' % mo.start())
-        if kind == 'option':
+        if is_err:
+            rep = 'match %s { Ok(v__) => Ok(v__), Err(%s) => Err(%s) }' % (recv, var, expr)
+        elif kind == 'option':
             rep = 'match %s { Some(%s) => Some(%s), None => None }' % (recv, var, expr)
         else:
             v = var if var != '_' else '_x'
@@ -538,6 +543,33 @@ def rewrite_body(body, log, r14=None, mut_refs=None):
         log.append('R23')
         return '%s::%s' % (mo.group(1), mo.group(2))
     body = re.sub(r'\bstd::(i8|i16|i32|i64|u8|u16|u32|u64|usize|isize)::(MIN|MAX)\b', r23, body)
+
+    # R25 -- `RECV.iter().find(|P| COND)` -> a block that walks RECV in order and yields the first element
+    # (as a reference) for which COND holds, else None: the definition of `Iterator::find` on a slice iterator.
+    while True:
+        skip = _skip_map(body)
+        mo = None
+        for m in re.finditer(r'\b([a-z_][\w.]*)\s*\.iter\(\)\s*\.find\(\|\s*(\w+)\s*\|', body):
+            if not skip[m.start()]:
+                mo = m
+                break
+        if mo is None:
+            break
+        p_open = body.index('(', body.index('.find', mo.start()))
+        p_close = match_brace(body, p_open, skip)
+        cond = body[mo.end():p_close].strip()
+        if re.search(r'\b(return|break|continue)\b', cond) or cond.startswith('{'):
+            break
+        recv, pat = mo.group(1), mo.group(2)
+        body = (body[:mo.start()] + '({ let mut found__ = None; for %s in %s.iter() { if %s { found__ = Some(%s); break; } } found__ })'
+                % (pat, recv, cond, pat) + body[p_close + 1:])
+        log.append('R25')
+
+    # R26 -- `rand::thread_rng().gen_range(0..N)` -> `vx_rand_below(N)`: an arbitrary index below N (ASSUMED)
+    def r26(mo):
+        log.append('R26')
+        return 'vx_rand_below(%s)' % mo.group(1).strip()
+    body = re.sub(r'\brand::thread_rng\(\)\s*\.gen_range\(0\.\.([^()]*(?:\([^()]*\))?[^()]*)\)', r26, body)
 
     # R2 (d) -- borrowing loop over a local Vec: `for X in V.iter() {` -> index loop, X = reference to the
     # element (V is not consumed; `slice::Iter` yields `&V[0]`, `&V[1]`, ... in order)
